@@ -126,14 +126,15 @@ theorem polar_neg_radius (r θ : ℝ) :
 /-- Wrapping into any interval that is one full turn long preserves the direction: sine and cosine
 are unchanged. -/
 theorem wrap_preserves_direction (a mn : ℝ) :
-    Real.sin (wrap a mn (mn + 2 * Real.pi)) = Real.sin a ∧
-      Real.cos (wrap a mn (mn + 2 * Real.pi)) = Real.cos a := by
-  obtain ⟨k, hk⟩ := wrap_congruent a mn (mn + 2 * Real.pi) (by linarith [Real.pi_pos])
-  have e : wrap a mn (mn + 2 * Real.pi) = a + k * (2 * Real.pi) := by
+    ∃ w, wrap a mn (mn + 2 * Real.pi) = some w ∧
+      Real.sin w = Real.sin a ∧ Real.cos w = Real.cos a := by
+  obtain ⟨w, k, hw, hk⟩ := wrap_congruent a mn (mn + 2 * Real.pi) (by linarith [Real.pi_pos])
+  have e : w = a + k * (2 * Real.pi) := by
     have : mn + 2 * Real.pi - mn = 2 * Real.pi := by ring
     rw [this] at hk; linarith
-  rw [e]
-  exact ⟨Real.sin_add_int_mul_two_pi a k, Real.cos_add_int_mul_two_pi a k⟩
+  refine ⟨w, hw, ?_, ?_⟩
+  · rw [e]; exact Real.sin_add_int_mul_two_pi a k
+  · rw [e]; exact Real.cos_add_int_mul_two_pi a k
 
 /-! ### Spherical -/
 
